@@ -98,7 +98,7 @@ func prepare(fc *FaultCase) ([][]preparedBatch, error) {
 // ambiguous by another payload relabelled to the main type), how many intact
 // copies of the main record the batch holds (duplication faults), and whether
 // every fault was applicable.
-func applyFaults(bar *colarspb.BatchArrowRecords, faults []Fault, retired []string) (*colarspb.BatchArrowRecords, bool, int, bool) {
+func applyFaults(bar *colarspb.BatchArrowRecords, faults []Fault, retired []string) (*colarspb.BatchArrowRecords, bool, int, bool, bool) {
 	b := proto.Clone(bar).(*colarspb.BatchArrowRecords)
 	// role of every payload currently in the batch: the main record, an
 	// intact copy of it (duplication faults), or another payload
@@ -106,7 +106,16 @@ func applyFaults(bar *colarspb.BatchArrowRecords, faults []Fault, retired []stri
 		other = iota
 		mainRec
 		mainCopy
+		// the main record (or a copy), bytes and schema id intact, under
+		// another label
+		mainRelabelled
 	)
+	copyRole := func(r int) int {
+		if r == mainRec {
+			return mainCopy
+		}
+		return r
+	}
 	roles := make([]int, len(b.ArrowPayloads))
 	roles[0] = mainRec
 	mainType := bar.ArrowPayloads[0].Type
@@ -114,32 +123,32 @@ func applyFaults(bar *colarspb.BatchArrowRecords, faults []Fault, retired []stri
 	damage := func(i int) {
 		// a fault altered payload i itself: if it is the main record or one of
 		// its copies, no item count is demanded any more
-		if roles[i] != other {
+		if roles[i] == mainRec || roles[i] == mainCopy {
 			mainTouched = true
 		}
+		roles[i] = other
 	}
 	unmain := func(i int) {
-		// payload i stops being a main record (relabelled to another type, or
-		// emptied): one intact copy fewer; when none is left the batch has no
-		// main record any more (mainCopies == 0 below)
+		// payload i stops being a main record (emptied): one intact copy fewer;
+		// when none is left the batch has no main record any more
 		roles[i] = other
 	}
 	for _, f := range faults {
 		n := len(b.ArrowPayloads)
 		if f.I < 0 || f.I >= n {
-			return nil, false, 0, false
+			return nil, false, 0, false, false
 		}
 		pl := b.ArrowPayloads[f.I]
 		switch f.Kind {
 		case "relabel":
 			if colarspb.ArrowPayloadType(f.Type) == pl.Type {
-				return nil, false, 0, false
+				return nil, false, 0, false, false
 			}
 			pl.Type = colarspb.ArrowPayloadType(f.Type)
 			if colarspb.ArrowPayloadType(f.Type) == mainType {
 				mainTouched = true // a second "main" record that is none: the batch is ambiguous
-			} else {
-				unmain(f.I)
+			} else if roles[f.I] != other {
+				roles[f.I] = mainRelabelled // still present in the batch, under another label
 			}
 		case "drop":
 			if roles[f.I] == mainRec {
@@ -150,37 +159,33 @@ func applyFaults(bar *colarspb.BatchArrowRecords, faults []Fault, retired []stri
 			roles = append(roles[:f.I:f.I], roles[f.I+1:]...)
 		case "dup":
 			b.ArrowPayloads = append(b.ArrowPayloads, proto.Clone(pl).(*colarspb.ArrowPayload))
-			r := other
-			if roles[f.I] != other {
-				r = mainCopy
-			}
-			roles = append(roles, r)
+			roles = append(roles, copyRole(roles[f.I]))
 		case "dup_relabel":
 			// a copy of payload i, relabelled, appended: the two faults
 			// "duplicated" and "relabelled" on one payload
 			if colarspb.ArrowPayloadType(f.Type) == pl.Type {
-				return nil, false, 0, false
+				return nil, false, 0, false, false
 			}
 			cl := proto.Clone(pl).(*colarspb.ArrowPayload)
 			cl.Type = colarspb.ArrowPayloadType(f.Type)
 			b.ArrowPayloads = append(b.ArrowPayloads, cl)
-			roles = append(roles, other)
 			if colarspb.ArrowPayloadType(f.Type) == mainType {
+				roles = append(roles, other)
 				mainTouched = true // a second "main" record that is none
+			} else if roles[f.I] != other {
+				roles = append(roles, mainRelabelled) // the main record once more, under another label
+			} else {
+				roles = append(roles, other)
 			}
 		case "dup_adjacent":
 			cl := proto.Clone(pl).(*colarspb.ArrowPayload)
 			rest := append([]*colarspb.ArrowPayload{cl}, b.ArrowPayloads[f.I+1:]...)
 			b.ArrowPayloads = append(b.ArrowPayloads[:f.I+1:f.I+1], rest...)
-			r := other
-			if roles[f.I] != other {
-				r = mainCopy
-			}
-			rrest := append([]int{r}, roles[f.I+1:]...)
+			rrest := append([]int{copyRole(roles[f.I])}, roles[f.I+1:]...)
 			roles = append(roles[:f.I+1:f.I+1], rrest...)
 		case "swap":
 			if f.J < 0 || f.J >= n || f.J == f.I {
-				return nil, false, 0, false
+				return nil, false, 0, false, false
 			}
 			b.ArrowPayloads[f.I], b.ArrowPayloads[f.J] = b.ArrowPayloads[f.J], b.ArrowPayloads[f.I]
 			roles[f.I], roles[f.J] = roles[f.J], roles[f.I]
@@ -192,24 +197,34 @@ func applyFaults(bar *colarspb.BatchArrowRecords, faults []Fault, retired []stri
 			damage(f.I)
 		case "stale_id":
 			if len(retired) == 0 {
-				return nil, false, 0, false
+				return nil, false, 0, false, false
 			}
 			pl.SchemaId = retired[f.J%len(retired)]
 			damage(f.I)
 		default:
-			return nil, false, 0, false
+			return nil, false, 0, false, false
 		}
 	}
-	mainCopies := 0
-	for _, r := range roles {
-		if r != other {
+	mainCopies, relabelled, labelledMain := 0, 0, 0
+	for i, r := range roles {
+		switch r {
+		case mainRec, mainCopy:
 			mainCopies++
+		case mainRelabelled:
+			relabelled++
+		}
+		if b.ArrowPayloads[i].Type == mainType {
+			labelledMain++
 		}
 	}
 	if mainCopies == 0 {
 		mainTouched = true
 	}
-	return b, mainTouched, mainCopies, true
+	// The main record is in the batch, bytes intact, but no payload carries the
+	// main label: whatever the consumer makes of the other payloads, "success"
+	// would discard a main record that was present.
+	mustNotSucceed := mainCopies == 0 && relabelled > 0 && labelledMain == 0
+	return b, mainTouched, mainCopies, mustNotSucceed, true
 }
 
 type sessionStats struct {
@@ -250,10 +265,10 @@ outer:
 		for j, pb := range seg {
 			last := j == len(seg)-1
 			if last && k < len(faults) && len(faults[k]) > 0 {
-				fb, mainTouched, mainCopies, ok := applyFaults(pb.bar, faults[k], retired)
+				fb, mainTouched, mainCopies, mustNotSucceed, ok := applyFaults(pb.bar, faults[k], retired)
 				if !ok {
 					// inapplicable fault list: treat the batch as unaltered
-					fb, mainTouched, mainCopies = proto.Clone(pb.bar).(*colarspb.BatchArrowRecords), false, 1
+					fb, mainTouched, mainCopies, mustNotSucceed = proto.Clone(pb.bar).(*colarspb.BatchArrowRecords), false, 1, false
 					faults[k] = nil
 				}
 				if len(faults[k]) > 0 {
@@ -266,6 +281,9 @@ outer:
 					switch {
 					case d.Panic != nil:
 						msg = fmt.Sprintf("segment %d batch %d (%s) damaged by %v: consumer panicked: %s", k, j, pb.signal, faults[k], d.Panic)
+						break outer
+					case d.Err == nil && mustNotSucceed:
+						msg = fmt.Sprintf("segment %d batch %d (%s) damaged by %v: consumer returned success (%d items) although the batch held its main record of %d items under another label and no payload with the main label (a main record that was present was discarded)", k, j, pb.signal, faults[k], d.Items, pb.items)
 						break outer
 					case d.Err == nil && !mainTouched && d.Items != pb.items*mainCopies:
 						msg = fmt.Sprintf("segment %d batch %d (%s) damaged by %v: consumer returned success with %d items although the batch held %d intact main record(s) of %d items each (a main record that was present was discarded)", k, j, pb.signal, faults[k], d.Items, mainCopies, pb.items)
